@@ -367,8 +367,8 @@ func fixedScenarios(T int) []Scenario {
 		{Name: "ignore-term", Procs: []Proc{p(0, true, false, false, long)}},
 		{Name: "ignore-term-children-wait", MainWait: true, Procs: []Proc{p(0, true, false, false, 0), p(0, true, false, false, long), p(0, true, false, false, long)}},
 		{Name: "detached-child-ignores-term", Procs: []Proc{p(0, false, false, false, long), p(0, true, true, false, long)}},
-		{Name: "exit-leaving-detached-child", Procs: []Proc{p(0, false, false, false, 0), p(0, false, true, false, long)}},
-		{Name: "exit-leaving-child-holding-pipes", Procs: []Proc{p(0, false, false, false, 0), p(0, false, false, false, long)}},
+		{Name: "exit-leaving-detached-child", Procs: []Proc{p(0, false, false, false, T/2), p(0, false, true, false, long)}},
+		{Name: "exit-leaving-child-holding-pipes", Procs: []Proc{p(0, false, false, false, T/3), p(0, false, false, false, long)}},
 		{Name: "setsid-child-holding-pipes", Procs: []Proc{p(0, false, false, false, long), p(0, false, false, true, long)}},
 		{Name: "setsid-child-detached", Procs: []Proc{p(0, false, false, false, long), p(0, false, true, true, long)}},
 		{Name: "exit-at-deadline", Procs: []Proc{p(0, false, false, false, T)}},
@@ -399,7 +399,7 @@ func main() {
 			"plus random trees of 1-7 processes (parent, trap '' TERM, exec >/dev/null, setsid, life in {0, T/2, T-10, T, T+15, 30 s}, main sleeping or waiting), each with every timeout of the tier. " +
 			"distinct = distinct (tree, timeout); non-trivial = more than one process, or SIGTERM ignored, or a life within 20 ms of the deadline")
 		logging.SetBackend(logcap)
-		mySid, _ = syscall.Getsid(0)
+		_, _, mySid, _ = procStat(os.Getpid())
 		base, err := os.MkdirTemp(c.Out, "c30-")
 		if err != nil {
 			panic(err)
